@@ -17,7 +17,7 @@ RULE = {"C08": "generated robot definitions: 1-4 components (own and inherited a
                "falsy value, None, preset on the class, set in __init__, private, generic alias, other component}; robotInit() "
                "runs for real.  Also: components that are StateMachines, two components of one class, falsy component / mode objects, robot attributes that are callable objects (instance with __call__, functools.partial, class object), FMS attached at start-up.  Non-trivial = >=2 components and >=1 of {prefixed, falsy, cross-component, error}; distinct = "
                "hash of the definition."}
-REQUIRED = {"C08": {"falsy-component-or-mode": 100, "callable-robot-attribute": 50, "rel:plain": 200, "rel:prefixed": 100, "rel:both": 50, "rel:falsy": 100, "rel:subclass": 50, "rel:bool-for-int": 30,
+REQUIRED = {"C08": {"rel:reannotated-in-subclass": 30, "constructor-annotations-are-strings": 50, "structural-or-mock-instance": 50, "falsy-component-or-mode": 100, "callable-robot-attribute": 50, "rel:plain": 200, "rel:prefixed": 100, "rel:both": 50, "rel:falsy": 100, "rel:subclass": 50, "rel:bool-for-int": 30,
                     "rel:generic-alias": 30, "rel:preset-class": 50, "rel:preset-init": 50, "rel:private": 50, "rel:component-earlier": 50,
                     "rel:component-later": 50, "rel:absent": 50, "rel:wrong-type": 50, "rel:wrong-type-prefixed": 20, "rel:none": 20, "rel:ctor-param": 50,
                     "rel:inherited-annotation": 50, "rel:mode-target": 50, "rel:one-class-two-components": 50, "rel:one-statemachine-class-two-components": 20, "fms-attached-at-startup": 100,
@@ -38,6 +38,11 @@ def _types():
         import functools
         CallT = type("CallT", (), {"__call__": lambda self: 1})       # an object that happens to be callable
         TYPES.update({"CallT": CallT, "partial": functools.partial, "type": type})
+        import typing
+        # structural typing: HasSpin does not inherit from Proto, isinstance() says yes all the same
+        Proto = typing.runtime_checkable(type("Proto", (typing.Protocol,), {"spin": lambda self: None}))
+        HasSpin = type("HasSpin", (), {"spin": lambda self: None})
+        TYPES.update({"Proto": Proto, "HasSpin": HasSpin})
         TYPES.update({"T0": T0, "T1": T1, "T2": T2, "int": int, "str": str, "float": float, "list": list, "tuple": tuple,
                       "bool": bool, "list[int]": list[int], "tuple[int, int]": tuple[int, int], "dict[str, int]": dict[str, int]})
     return TYPES
@@ -68,11 +73,15 @@ def make_value(desc):
         return functools.partial(int, desc[1])
     if k == "cls":
         return T[desc[1]]        # the class object itself is the value
+    if k == "mock":
+        from unittest import mock
+        return mock.Mock(spec=T[desc[1]])       # a test double: isinstance(mock, T) is True, type(mock) is not T
     raise ValueError(desc)
 
 
 GOOD = {  # annotation -> value descriptors that satisfy it
-    "T0": [("inst", "T0"), ("inst", "T1")], "T1": [("inst", "T1")], "T2": [("inst", "T2")],
+    "T0": [("inst", "T0"), ("inst", "T1"), ("mock", "T0")], "T1": [("inst", "T1")], "T2": [("inst", "T2"), ("mock", "T2")],
+    "Proto": [("inst", "HasSpin")],
     "int": [("lit", 5), ("lit", 0), ("lit", True), ("lit", -3)], "str": [("lit", "x"), ("lit", "")],
     "float": [("lit", 1.5), ("lit", 0.0)], "list": [("list", [1]), ("list", [])], "tuple": [("tuple", [1, 2]), ("tuple", [])],
     "bool": [("lit", True), ("lit", False)], "list[int]": [("list", [1, 2]), ("list", [])], "tuple[int, int]": [("tuple", [1, 2])],
@@ -82,7 +91,7 @@ GOOD = {  # annotation -> value descriptors that satisfy it
 BAD = {"T0": [("inst", "T2"), ("lit", 3)], "T1": [("inst", "T0"), ("lit", "s")], "T2": [("inst", "T0")], "int": [("lit", "5"), ("lit", 1.0)],
        "str": [("lit", 5)], "float": [("lit", 1), ("lit", "1.0")], "list": [("tuple", [1])], "tuple": [("list", [1])], "bool": [("lit", 1)],
        "list[int]": [("tuple", [1])], "tuple[int, int]": [("list", [1, 2])], "dict[str, int]": [("list", [])],
-       "CallT": [("inst", "T0")], "partial": [("lit", 3)], "type": [("inst", "T0")]}
+       "CallT": [("inst", "T0")], "partial": [("lit", 3)], "type": [("inst", "T0")], "Proto": [("inst", "T0"), ("lit", 3)]}
 FALSY = {"int": ("lit", 0), "str": ("lit", ""), "float": ("lit", 0.0), "list": ("list", []), "tuple": ("tuple", []), "bool": ("lit", False),
          "list[int]": ("list", []), "dict[str, int]": ("dict", {})}
 
@@ -182,12 +191,23 @@ def gen_case(rng, uid):
                 c["ctor"].append(gen_attr(cn, is_ctor=True, others=cnames[:i]))    # only earlier-declared components
         if rng.random() < 0.15:
             c["truth"] = rng.choice(["len0", "boolFalse"])       # a component object that is falsy (an empty queue)
+        c["ctor_str"] = rng.random() < 0.4
         comps[cn] = c
+    # a subclass re-annotates an attribute its base class annotates with another type: the subclass's annotation counts
+    for cn, c in comps.items():
+        if c["attrs"] and rng.random() < 0.15:
+            a = rng.choice(c["attrs"])
+            if a["rel"] in ("plain", "prefixed", "both", "subclass", "generic-alias") and not a["name"].startswith("_"):
+                other = rng.choice([t for t in ("T2", "str", "int", "T1") if t != a["ann"]])
+                c["base_attrs"] = [b for b in c["base_attrs"] if b["name"] != a["name"]]
+                c["base_attrs"].append({"name": a["name"], "ann": other, "rel": "shadowed-by-subclass-annotation"})
     # a component never requests the same name twice
     for c in comps.values():
         seen = set()
         for lst in (c["ctor"], c["base_attrs"], c["attrs"]):
             for a in list(lst):
+                if a["rel"] == "shadowed-by-subclass-annotation":
+                    continue
                 if a["name"] in seen:
                     lst.remove(a)
                 seen.add(a["name"])
@@ -383,7 +403,15 @@ def run_case(acc, case):
             kw = ", ".join(f"{a['name']}={a['name']}" for a in c["ctor"])
             exec(f"def __init__(self, {params}):\n    _real(self, {kw})\n", ns)
             init = ns["__init__"]
-            init.__annotations__ = {a["name"]: ann_of(a["ann"]) for a in c["ctor"]}
+            if c.get("ctor_str"):
+                # quoted annotations / `from __future__ import annotations`: the hints are source text, resolved in the
+                # function's module namespace
+                ns.update({k: v for k, v in T.items() if k.isidentifier()})
+                ns.update({"CC_" + k: v for k, v in _COMP_CLASSES.items()})
+                init.__annotations__ = {a["name"]: ("CC_" + a["ann"][5:] if a["ann"].startswith("comp:") else a["ann"]) for a in c["ctor"]}
+                acc.ev("constructor-annotations-are-strings")
+            else:
+                init.__annotations__ = {a["name"]: ann_of(a["ann"]) for a in c["ctor"]}
             cls.__init__ = init
     robot_objs = {n: make_value(tuple(r["value"])) for n, r in case["robot_attrs"].items()}
     order, split = case["order"], case["split"]
@@ -443,6 +471,9 @@ def run_case(acc, case):
         for cn in order:
             c = comps[cn]
             for a in c["attrs"] + c["base_attrs"]:
+                if a["rel"] == "shadowed-by-subclass-annotation":
+                    acc.ev("rel:reannotated-in-subclass")
+                    continue
                 r = resolve_attr(cn, a, robot_objs, order, _COMP_CLASSES)
                 expected[(cn, "attr", a["name"])] = r
                 if r[0] == "error":
@@ -570,6 +601,8 @@ def _count_rel(acc, a, cn, order):
     acc.ev("rel:" + rel)
     if a["ann"] in ("CallT", "partial", "type"):
         acc.ev("callable-robot-attribute")
+    if a["ann"] == "Proto":
+        acc.ev("structural-or-mock-instance")
 
 
 def resolve_attr(owner, a, robot_objs, order, comp_classes):
